@@ -486,6 +486,13 @@ def run(prog, rep, tier, repo):
     check_scale_guards(prog, rep, 'data-threshold', keys, values=True, missing_ok=True,
                        why='the rule then treats inputs differently according to their scale (abscissae 1e-9 apart, or nearly even grids, take the other path)')
     rep.ok('data-threshold', 'data-threshold:scan', '%d integrate:: bodies scanned for data comparisons against absolute constants' % len(keys))
+
+    # ---- D7 every rule accepts every interval: no witness (a < b, a > b, a == b; at least one panel) on which a quadrature routine cannot
+    # return -- e.g. a positivity assert on the step reached with a == b through a helper
+    from ..precond import check_returns, positive_sizes
+    entry = sorted(k for k, b in pdb.bodies.items() if k.startswith('integrate::functions::') and b.kind != 'closure' and '{' not in k)
+    check_returns(prog, rep, 'total', entry, domain=positive_sizes, what='for an interval the property quantifies over (reversed and empty intervals included)')
+    rep.floor('total', 3, 'trapz, quad5, romberg')
     return {}
 
 
